@@ -1,7 +1,7 @@
 """unit drv: run_acb_app_to_delta_models of app/approot.rs (the function that reads the CSV files, assigns read
 indices, sorts, partitions per security, expands global splits and runs the ledger) on top of bk + fx + ord."""
 import os
-from vx.build import Src, mod, shim
+from vx.build import Src, mod, shim, MARKER
 import units.bk as bk
 import units.fx as fxu
 
@@ -9,17 +9,54 @@ NAME = 'drv'
 OVERLAYS = ['bk', 'fx', 'ord', 'drv', 'inp']
 OWN_OVERLAYS = ['drv', 'inp']
 VERUS_FLAGS = ['--no-lifetime']
-VERIFY_MODULES = ['app::approot', 'app::input_parse']
+VERIFY_MODULES = ['app::approot', 'app::input_parse', 'portfolio::io::tx_csv']
 
 
 def tx_csv_part(ctx):
+    """portfolio/io/tx_csv.rs: the reading half (parse_tx_csv, csvtx_from_csv_values, the two cell parsers) on stand-ins for
+    the csv crate and str helpers (shim/csv_stubs.rs)"""
+    from units.qt import str_match_to_if
     tc = Src(ctx, 'portfolio/io/tx_csv.rs').cut_tests().standard()
-    tc.only(['struct TxCsvParseOptions', 'fn parse_tx_csv'], why='csv crate / string parsing is outside the verifier')
+    tc.only(['fn parse_csv_action', 'fn parse_csv_superficial_loss', 'fn csvtx_from_csv_values', 'struct TxCsvParseOptions', 'fn parse_tx_csv'],
+            why='the writing half (txs_to_csv_table, write_txs_to_csv) is not extracted')
     tc.sub(r'(?ms)^(pub )?use [^;]*;\n', '', 'select')
-    tc.ext_fn('parse_tx_csv', why='csv parsing; contract: row i gets read index initial+i')
     tc.replace("crate::util::date::DynDateFormat", "crate::util::date_fmt::DynDateFormat", 'R1')
-    tx_csv_use = "use crate::portfolio::CsvTx;\nuse crate::util::rw::WriteHandle;\nuse crate::util::rw_reader::DescribedReader;\ntype Error = String;\n"
+    # parse_csv_action
+    tc.replace("match value.trim().to_lowercase().as_str() {",
+               "let __lc: String = crate::csvx::to_lower(crate::csvx::trim(value));\n    match __lc.as_str() {", 'R26')
+    str_match_to_if(tc, "match __lc.as_str() {")
+    tc.s = tc.s.replace('crate::xl::str_eq(', 'crate::csvx::str_eq(')
+    # parse_csv_superficial_loss
+    tc.replace('value.ends_with("!")', 'crate::csvx::ends_with_bang(value)', 'R26')
+    tc.replace('&value[..value.len() - 1]', 'crate::csvx::drop_last(value)', 'R26')
+    # csvtx_from_csv_values
+    tc.replace('if s.trim().is_empty() {', 'if crate::csvx::str_is_empty(crate::csvx::trim(s.as_str())) {', 'R26')
+    # parse_tx_csv
+    tc.sub(r'(?s)let mut reader_box = desc_reader\.reader\(\)\.map_err\(\|e\| e\.to_string\(\)\)\?;\s*'
+           r'let reader: &mut dyn Read = reader_box\.borrow_mut\(\);\s*'
+           r'let mut csv_r = (?:crate::)?csv::ReaderBuilder::new\(\)\.has_headers\(true\)\.from_reader\(reader\);',
+           'let mut csv_r = crate::csvx::open_csv(desc_reader)?;', 'H', required=True)
+    tc.replace('let col_names = CsvCol::get_csv_cols();', 'let col_names = crate::csvx::csv_cols();', 'H')
+    tc.enum_loop('for (i, col) in headers_res.iter().enumerate() {',
+                 'let mut i: usize = 0;\n    let __hf = crate::csvx::fields_vec(headers_res);\n    for col in __hf {', 'i')
+    tc.replace('let lower_col = col.to_lowercase();', 'let lower_col = crate::csvx::to_lower(col);', 'R26')
+    tc.replace('let san_col = lower_col.trim();', 'let san_col = crate::csvx::trim(lower_col.as_str());', 'R26')
+    tc.enum_loop('for (i, record_res) in csv_r.records().enumerate() {',
+                 'let mut i: usize = 0;\n    let __recs = crate::csvx::records_vec(&mut csv_r);\n    for record_res in __recs {', 'i')
+    tc.enum_loop('for (i, col_val) in record.iter().enumerate() {',
+                 'let mut __j: usize = 0;\n        let __fl = crate::csvx::fields_vec(&record);\n        for col_val in __fl {\n            let i = __j;', '__j')
+    tc.replace('if !col_val.trim().is_empty() {', 'if !crate::csvx::str_is_empty(crate::csvx::trim(col_val)) {', 'R26')
+    tc.replace('tx_values.insert(col_name, col_val.trim().to_string());', 'tx_values.insert(col_name, crate::csvx::to_string(crate::csvx::trim(col_val)));', 'R26')
+    tx_csv_use = ("use std::collections::{HashMap, HashSet};\nuse crate::rust_decimal::Decimal;\nuse crate::portfolio::csv_common::CsvCol;\n"
+                  "use crate::portfolio::{Affiliate, CsvTx, Currency, SFLInput, SplitRatio, TxAction};\nuse crate::util::decimal::LessEqualZeroDecimal;\n"
+                  "use crate::util::rw::WriteHandle;\nuse crate::util::rw_reader::DescribedReader;\nuse vstd::std_specs::iter::IteratorSpec;\ntype Error = String;\n")
     return mod('tx_csv', tx_csv_use + tc.text())
+
+
+def with_csv_stubs(head):
+    """the csv / str stand-ins of tx_csv.rs go in front of the marker, next to the other shims"""
+    d = os.path.join(os.path.dirname(os.path.dirname(os.path.abspath(__file__))), 'shim')
+    return head.replace(MARKER, '') + open(os.path.join(d, 'csv_stubs.rs')).read() + MARKER
 
 
 APP_USE = ("use std::collections::HashMap;\nuse vstd::std_specs::iter::IteratorSpec;\nuse crate::time::Date;\nuse crate::fx::io::RateLoader;\n"
@@ -73,7 +110,7 @@ def build(ctx):
     ar = approot_src(ctx, ['type Error', 'fn run_acb_app_to_delta_models'])
     app = mod('app', mod('approot', APP_USE + ar.text()) + input_parse_part(ctx))
     stubs = open(os.path.join(os.path.dirname(os.path.dirname(os.path.abspath(__file__))), 'shim', 'util_stubs.rs')).read()
-    head = shim('base', 'std').replace('verus! {\n/// Trusted contracts for std', fxu.MACROS + 'verus! {\n/// Trusted contracts for std', 1)
+    head = with_csv_stubs(shim('base', 'std').replace('verus! {\n/// Trusted contracts for std', fxu.MACROS + 'verus! {\n/// Trusted contracts for std', 1))
     return (head + "verus! {\n"
             + bk.assemble(p, extra_util=stubs,
                           extra_portfolio=mod('io', mod('tx_loader', f['txl']) + tx_csv_part(ctx))
@@ -91,6 +128,7 @@ def OVERLAY_SPLIT(op):
 
 
 TAG_RULES = [
+    (r'tx_csv::', ['C07']),
     (r'input_parse::', ['C16']),
     (r'approot::', ['C07', 'C08', 'C16', 'C04']),
 ] + bk.TAG_RULES
